@@ -268,5 +268,5 @@ func gen(t *rapid.T) Case {
 }
 
 func TestC01(t *testing.T) {
-	ev.Explore(run, t, "history", run.N(250, 3000), gen, exec)
+	ev.Explore(run, t, "history", run.N(120, 1000), gen, exec)
 }
